@@ -5,6 +5,7 @@ import json, os, re, subprocess, sys
 VERIF = os.path.dirname(os.path.dirname(os.path.abspath(__file__)))
 ids = [a for a in sys.argv[1:] if not a.startswith('--')]
 props = None
+full = '--full' in sys.argv
 for a in sys.argv[1:]:
     if a.startswith('--props='):
         props = a.split('=')[1].split(',')
@@ -22,7 +23,8 @@ for sid in sorted(x for x in os.listdir(os.path.join(VERIF, 'seeded')) if os.pat
     try:
         subprocess.run(['git', '-C', '/repo', 'apply', os.path.join(d, 'patch.diff')], check=True)
         res = {}
-        for p in (props or allp):
+        plist = props or (allp if full else sorted(set([meta['breaks_property'], 'C12']) & set(allp)) or allp)
+        for p in plist:
             r = subprocess.run(['./check', p], cwd=VERIF, capture_output=True, text=True)
             v = [l for l in r.stdout.split('\n') if l.startswith('VIOLATION')]
             u = [l for l in r.stdout.split('\n') if l.startswith('UNDECIDED')]
